@@ -36,9 +36,16 @@ def literal(node):
 class Classes:
     """Reads cal.py (and the modules it needs) once per run."""
 
-    def __init__(self, modname="cal"):
+    def __init__(self, modname="cal", extra=("alarms",)):
         self.mod = source.module(modname)
+        self.mods = [self.mod] + [source.module(m) for m in extra]
         self.cache: dict = {}
+
+    def mod_of(self, cls):
+        for m in self.mods:
+            if cls in m.classes:
+                return m
+        return None
 
     def member(self, lat: E.Lattice, cls: str, name: str):
         key = (cls, name)
@@ -46,20 +53,22 @@ class Classes:
             return self.cache[key]
         res = None
         for c in mro(lat, cls):
-            if c not in self.mod.classes:
+            m = self.mod_of(c)
+            if m is None:
                 continue
-            members = self.mod.class_members(c)
+            members = m.class_members(c)
             if name in members or (name + ".setter") in members:
-                res = self.describe(lat, c, name, members.get(name))
+                res = self.describe(lat, c, name, members.get(name), m)
                 break
         self.cache[key] = res
         return res
 
-    def describe(self, lat, owner, name, node):
+    def describe(self, lat, owner, name, node, mod=None):
+        mod = mod or self.mod
         if isinstance(node, ast.FunctionDef):
             kind = source.deco_kind(node)
             if kind == "property":
-                members = self.mod.class_members(owner)
+                members = mod.class_members(owner)
                 return Descriptor("property_def", owner, name, fget=node, fset=members.get(name + ".setter"),
                                   fdel=members.get(name + ".deleter"))
             return Descriptor("method", owner, name, node=node, deco=kind)
@@ -79,13 +88,13 @@ class Classes:
                 fs = [a.id if isinstance(a, ast.Name) else None for a in node.args[:3]]
                 fs += [None] * (3 - len(fs))
                 return Descriptor("property_fns", owner, name, fget=fs[0], fset=fs[1], fdel=fs[2])
-        if isinstance(node, ast.Attribute) and isinstance(node.value, ast.Name) and node.value.id in self.mod.classes:
+        if isinstance(node, ast.Attribute) and isinstance(node.value, ast.Name) and self.mod_of(node.value.id) is not None:
             return self.member(lat, node.value.id, node.attr)
         if isinstance(node, ast.Name):
-            if node.id in self.mod.assigns:
-                return self.describe(lat, owner, name, self.mod.assigns[node.id])
-            if node.id in self.mod.functions:
-                return Descriptor("method", owner, name, node=self.mod.functions[node.id], deco="")
+            if node.id in mod.assigns:
+                return self.describe(lat, owner, name, mod.assigns[node.id], mod)
+            if node.id in mod.functions:
+                return Descriptor("method", owner, name, node=mod.functions[node.id], deco="")
         val = literal(node) if node is not None else None
         if isinstance(val, (tuple, list)) and all(isinstance(x, str) for x in val):
             return Descriptor("const", owner, name, value=E.VTuple([E.VStr(z3.StringVal(x)) for x in val]))
